@@ -109,3 +109,484 @@ Proof.
   - destruct (Nat.eqb (fst x) c); [discriminate|]. specialize (IH H).
     destruct (del_sub c l); [discriminate | congruence].
 Qed.
+
+(* ------------------------------------------------------------------ structural invariant *)
+
+Record Inv (s : state) : Prop := mkInv {
+  i_nodup_subs : NoDup (map fst (subs s));
+  i_subs_hist : incl (subs s) (shist s);
+  i_nodup_hist : NoDup (map fst (shist s));
+  i_hist_cases : forall c, In c (map fst (shist s)) ->
+                   In c (map fst (subs s)) \/ In c (cclosed s) \/ closed s = true;
+  i_pending_closed : incl (pending s) (cclosed s);
+  i_nodup_pending : NoDup (pending s);
+  i_closing : closing s = true -> closed s = true;
+  i_pending_subs : closed s = false -> forall c, In c (pending s) -> In c (map fst (subs s));
+  i_match : forall c e, In (c, e) (inflight s) \/ In (c, e) (dlog s) ->
+              exists p, In (c, p) (shist s) /\ p e = true
+}.
+
+Lemma matching_in : forall s e c,
+  In c (matching s e) <-> exists p, In (c, p) (subs s) /\ p e = true.
+Proof.
+  intros s e c. unfold matching. rewrite in_map_iff. split.
+  - intros [[c' p] [Hc Hin]]. cbn [fst] in Hc. subst c'. apply filter_In in Hin. cbn [snd] in Hin.
+    exists p. exact Hin.
+  - intros [p [Hin Hp]]. exists (c, p). split; [reflexivity|]. apply filter_In. split; assumption.
+Qed.
+
+Lemma inv_init : Inv init.
+Proof.
+  constructor; cbn; try constructor; try tauto; try discriminate.
+  all: try (intros x []).
+  all: try (intros c e [[]|[]]).
+Qed.
+
+Lemma inv_put : forall s e, Inv s -> Inv (fst (put s e)).
+Proof.
+  intros s e HI. unfold put.
+  destruct (closed s) eqn:Hcl; [exact HI|].
+  destruct HI as [H1 H2 H3 H4 H5 H6 H7 H8 H9].
+  destruct (matching s e) as [|c0 tos] eqn:Hm.
+  - destruct (cache_matches s e); constructor; simpl; assumption.
+  - constructor; simpl; try assumption.
+    intros c e0 [Hin|Hin]; [apply H9; left; exact Hin|].
+    apply in_app_or in Hin. destruct Hin as [Hin|Hin]; [apply H9; right; exact Hin|].
+    change ((c0, e) :: map (fun c : cid => (c, e)) tos) with (map (fun c : cid => (c, e)) (c0 :: tos)) in Hin.
+    apply in_map_iff in Hin. destruct Hin as [c' [Heq Hin]]. inversion Heq; subst c' e0.
+    rewrite <- Hm in Hin. apply matching_in in Hin. destruct Hin as [p [Hp1 Hp2]].
+    exists p. split; [apply H2; exact Hp1 | exact Hp2].
+Qed.
+
+Lemma in_map_fst_app : forall (c : cid) (l : list (cid * pred)) x,
+  In c (map fst (l ++ [x])) <-> In c (map fst l) \/ c = fst x.
+Proof.
+  intros. rewrite map_app, in_app_iff. cbn [map In]. intuition.
+Qed.
+
+Lemma NoDup_snoc : forall {A} (l : list A) x, NoDup l -> ~ In x l -> NoDup (l ++ [x]).
+Proof.
+  intros A l x Hn Hx. apply Permutation_NoDup with (x :: l).
+  - apply Permutation_cons_append.
+  - constructor; assumption.
+Qed.
+
+Lemma inv_subscribe : forall s c p, Inv s -> Inv (fst (subscribe s c p)).
+Proof.
+  intros s c p HI. unfold subscribe.
+  destruct (closed s) eqn:Hcl; [exact HI|].
+  destruct (memn c (map fst (subs s))) eqn:Hm; [exact HI|].
+  destruct (memn c (cclosed s)) eqn:Hc; [exact HI|].
+  apply memn_false in Hm. apply memn_false in Hc.
+  destruct HI as [H1 H2 H3 H4 H5 H6 H7 H8 H9].
+  assert (Hfresh : ~ In c (map fst (shist s))).
+  { intros Hin. destruct (H4 c Hin) as [Ha|[Ha|Ha]]; [tauto | tauto | congruence]. }
+  constructor; simpl; try assumption.
+  - rewrite map_app. cbn [map fst]. apply NoDup_snoc; assumption.
+  - intros x Hx. apply in_app_or in Hx. apply in_or_app. destruct Hx as [Hx|Hx]; [left; apply H2; exact Hx | right; exact Hx].
+  - rewrite map_app. cbn [map fst]. apply NoDup_snoc; assumption.
+  - intros c1 Hin. apply in_map_fst_app in Hin. cbn [fst] in Hin.
+    destruct Hin as [Hin|Hin].
+    + destruct (H4 c1 Hin) as [Ha|[Ha|Ha]]; [left; apply in_map_fst_app; left; exact Ha | right; left; exact Ha | congruence].
+    + left. apply in_map_fst_app. right. exact Hin.
+  - intros Hcl' c1 Hin. apply in_map_fst_app. left. apply H8; assumption.
+  - intros c1 e [Hin|Hin].
+    + apply in_app_or in Hin. destruct Hin as [Hin|Hin].
+      * destruct (H9 c1 e (or_introl Hin)) as [q [Hq1 Hq2]]. exists q. split; [apply in_or_app; left; exact Hq1 | exact Hq2].
+      * apply in_map_iff in Hin. destruct Hin as [m [Heq Hin]]. inversion Heq; subst c1 m.
+        apply filter_In in Hin. exists p. split; [apply in_or_app; right; left; reflexivity | apply Hin].
+    + destruct (H9 c1 e (or_intror Hin)) as [q [Hq1 Hq2]]. exists q. split; [apply in_or_app; left; exact Hq1 | exact Hq2].
+Qed.
+
+Lemma inv_cache_pred : forall s k p, Inv s -> Inv (fst (cache_pred s k p)).
+Proof.
+  intros s k p HI. unfold cache_pred.
+  destruct (closed s); [exact HI|]. destruct (memn k (map fst (cpreds s))); [exact HI|].
+  destruct HI. constructor; simpl; assumption.
+Qed.
+
+Lemma inv_release : forall s k, Inv s -> Inv (fst (release s k)).
+Proof. intros s k HI. unfold release. destruct HI. constructor; simpl; assumption. Qed.
+
+Lemma inv_close_consumer : forall s c, Inv s -> Inv (fst (close_consumer s c)).
+Proof.
+  intros s c HI. unfold close_consumer.
+  destruct (memn c (cclosed s)) eqn:Hc; [exact HI|]. apply memn_false in Hc.
+  destruct HI as [H1 H2 H3 H4 H5 H6 H7 H8 H9].
+  destruct (memn c (map fst (shist s))) eqn:Hh.
+  - apply memn_In in Hh. constructor; simpl; try assumption.
+    + intros c1 Hin. destruct (H4 c1 Hin) as [Ha|[Ha|Ha]]; [left; exact Ha | right; left; right; exact Ha | right; right; exact Ha].
+    + intros x Hx. apply in_app_or in Hx. destruct Hx as [Hx|[Hx|[]]]; [right; apply H5; exact Hx | left; exact Hx].
+    + apply NoDup_snoc; [exact H6|]. intros Hin. apply Hc. apply H5. exact Hin.
+    + intros Hcl c1 Hin. apply in_app_or in Hin. destruct Hin as [Hin|[Hin|[]]]; [apply H8; assumption|].
+      subst c1. destruct (H4 c Hh) as [Ha|[Ha|Ha]]; [exact Ha | tauto | congruence].
+  - constructor; simpl; try assumption.
+    + intros c1 Hin. destruct (H4 c1 Hin) as [Ha|[Ha|Ha]]; [left; exact Ha | right; left; right; exact Ha | right; right; exact Ha].
+    + intros x Hx. right. apply H5. exact Hx.
+Qed.
+
+Lemma inv_deliver : forall s c, Inv s -> Inv (fst (deliver s c)).
+Proof.
+  intros s c HI. unfold deliver.
+  destruct (take_first c (inflight s)) as [[e r]|] eqn:Ht; [|exact HI].
+  destruct (take_first_split _ _ _ _ Ht) as [l1 [l2 [Hl Hr]]].
+  destruct HI as [H1 H2 H3 H4 H5 H6 H7 H8 H9].
+  constructor; simpl; try assumption.
+  intros c1 e1 [Hin|Hin].
+  - apply H9. left. rewrite Hl. subst r. apply in_app_or in Hin. apply in_or_app.
+    destruct Hin as [Hin|Hin]; [left; exact Hin | right; right; exact Hin].
+  - apply in_app_or in Hin. destruct Hin as [Hin|[Hin|[]]].
+    + apply H9. right. exact Hin.
+    + inversion Hin; subst c1 e1. apply H9. left. rewrite Hl. apply in_or_app. right. left. reflexivity.
+Qed.
+
+Lemma inv_close_flag : forall s, Inv s -> Inv (fst (close_flag s)).
+Proof.
+  intros s HI. unfold close_flag. destruct (closed s) eqn:Hcl; [exact HI|].
+  destruct HI as [H1 H2 H3 H4 H5 H6 H7 H8 H9].
+  constructor; simpl; try assumption.
+  - intros c Hin. right. right. reflexivity.
+  - reflexivity.
+  - discriminate.
+Qed.
+
+Lemma inv_close_clear : forall s, Inv s -> Inv (fst (close_clear s)).
+Proof.
+  intros s HI. unfold close_clear. destruct (closing s) eqn:Hcg; [|exact HI]. cbn [negb].
+  destruct HI as [H1 H2 H3 H4 H5 H6 H7 H8 H9].
+  assert (Hcl : closed s = true) by (apply H7; exact Hcg).
+  destruct (cache s) eqn:Hca; constructor; simpl; try assumption;
+    try (intros; right; right; exact Hcl); try discriminate;
+    try (intros Hf; congruence); try (intros x []); try constructor.
+Qed.
+
+Lemma del_sub_props : forall c l l', del_sub c l = Some l' -> NoDup (map fst l) ->
+  NoDup (map fst l') /\ incl l' l /\ (forall c1, c1 <> c -> In c1 (map fst l) -> In c1 (map fst l')).
+Proof.
+  intros c l l' Hd Hn. destruct (del_sub_spec _ _ _ Hd) as [l1 [x [l2 [Hl [Hx Hp]]]]]. subst l.
+  split; [|split].
+  - apply Permutation_NoDup with (map fst (l1 ++ l2)).
+    + apply Permutation_map. apply Permutation_sym. exact Hp.
+    + rewrite map_app in *. cbn [map] in Hn. eapply NoDup_remove_1. exact Hn.
+  - intros y Hy. apply (Permutation_in _ Hp) in Hy. apply in_app_or in Hy. apply in_or_app.
+    destruct Hy as [Hy|Hy]; [left; exact Hy | right; right; exact Hy].
+  - intros c1 Hne Hin. apply (Permutation_in _ (Permutation_map fst (Permutation_sym Hp))).
+    rewrite map_app in *. cbn [map] in Hin. apply in_app_or in Hin. apply in_or_app.
+    destruct Hin as [Hin|[Hin|Hin]]; [left; exact Hin | congruence | right; exact Hin].
+Qed.
+
+Lemma inv_delete : forall s c, Inv s -> Inv (fst (delete s c)).
+Proof.
+  intros s c HI. unfold delete.
+  destruct (memn c (pending s)) eqn:Hp; [|exact HI]. cbn [negb]. apply memn_In in Hp.
+  destruct HI as [H1 H2 H3 H4 H5 H6 H7 H8 H9].
+  destruct (remove_first_NoDup c _ H6) as [Hn1 Hn2].
+  assert (Hs1 : Inv (set_pending s (remove_first c (pending s)))).
+  { constructor; simpl; try assumption.
+    - intros x Hx. apply H5. eapply remove_first_In. exact Hx.
+    - intros Hcl c1 Hin. apply H8; [exact Hcl|]. eapply remove_first_In. exact Hin. }
+  destruct (closed s) eqn:Hcl; [exact Hs1|].
+  destruct (del_sub c (subs s)) as [l|] eqn:Hd; [|exact Hs1].
+  destruct (del_sub_props _ _ _ Hd H1) as [Ha [Hb Hc]].
+  constructor; simpl; rewrite ?Hcl; try assumption.
+  - intros x Hx. apply H2. apply Hb. exact Hx.
+  - intros c1 Hin. destruct (Nat.eq_dec c1 c) as [He|He].
+    + subst c1. right. left. apply H5. exact Hp.
+    + destruct (H4 c1 Hin) as [Hx|[Hx|Hx]]; [left; apply Hc; assumption | right; left; exact Hx | right; right; exact Hx].
+  - intros x Hx. apply H5. eapply remove_first_In. exact Hx.
+  - intros _ c1 Hin. apply Hc.
+    + intros He. subst c1. tauto.
+    + apply H8; [reflexivity|]. eapply remove_first_In. exact Hin.
+Qed.
+
+Lemma inv_step : forall s a, Inv s -> Inv (fst (step s a)).
+Proof.
+  intros s a HI. destruct a; cbn [step].
+  - apply inv_put; exact HI.
+  - apply inv_subscribe; exact HI.
+  - apply inv_cache_pred; exact HI.
+  - apply inv_release; exact HI.
+  - apply inv_close_consumer; exact HI.
+  - apply inv_delete; exact HI.
+  - apply inv_deliver; exact HI.
+  - apply inv_close_flag; exact HI.
+  - apply inv_close_clear; exact HI.
+Qed.
+
+Lemma run_app : forall tr1 tr2 s, run s (tr1 ++ tr2) = run (run s tr1) tr2.
+Proof. intros. unfold run. apply fold_left_app. Qed.
+
+Lemma run_cons : forall a tr s, run s (a :: tr) = run (fst (step s a)) tr.
+Proof. reflexivity. Qed.
+
+Lemma inv_run : forall tr s, Inv s -> Inv (run s tr).
+Proof.
+  induction tr as [|a tr IH]; intros s HI; [exact HI|].
+  rewrite run_cons. apply IH. apply inv_step. exact HI.
+Qed.
+
+Lemma inv_reach : forall tr, Inv (run init tr).
+Proof. intros. apply inv_run. apply inv_init. Qed.
+
+(* the delete goroutine never hits log.Panic("deleted consumer that was not subscribed") *)
+Lemma delete_no_panic : forall tr c, snd (step (run init tr) (ADelete c)) <> OPanic.
+Proof.
+  intros tr c. pose proof (inv_reach tr) as HI. set (s := run init tr) in *.
+  cbn [step]. unfold delete.
+  destruct (memn c (pending s)) eqn:Hp; cbn [negb snd]; [|discriminate]. apply memn_In in Hp.
+  destruct (closed s) eqn:Hcl; [cbn [snd]; discriminate|].
+  pose proof (i_pending_subs _ HI Hcl c Hp) as Hin.
+  pose proof (del_sub_some _ _ Hin) as Hd.
+  destruct (del_sub c (subs s)); [cbn [snd]; discriminate | congruence].
+Qed.
+
+(* ------------------------------------------------------------------ where an envelope is *)
+
+Definition inC (e : env) (s : state) := cnt e (cache s).
+Definition inF (e : env) (s : state) := cnt e (map snd (inflight s)).
+Definition inD (e : env) (s : state) := cnt e (map snd (dlog s)).
+Definition inH (e : env) (s : state) := cnt e (hlog s).
+Definition inX (e : env) (s : state) := cnt e (flushed s).
+
+Lemma cnt_cons : forall e x l, cnt e (x :: l) = (if env_dec x e then 1 else 0) + cnt e l.
+Proof. intros. unfold cnt. cbn [count_occ]. destruct (env_dec x e); reflexivity. Qed.
+
+Lemma cntp_cons : forall y x l, cntp y (x :: l) = (if pe_dec x y then 1 else 0) + cntp y l.
+Proof. intros. unfold cntp. cbn [count_occ]. destruct (pe_dec x y); reflexivity. Qed.
+
+Lemma cntp_le : forall c e l, cntp (c, e) l <= cnt e (map snd l).
+Proof.
+  intros c e l. induction l as [|[c1 e1] l IH]; [apply Nat.le_refl|].
+  cbn [map snd]. rewrite cntp_cons, cnt_cons.
+  destruct (pe_dec (c1, e1) (c, e)) as [H|H]; destruct (env_dec e1 e) as [H'|H']; try lia.
+  inversion H. congruence.
+Qed.
+
+Lemma cntp_pair_map : forall c e l, cntp (c, e) (map (fun m => (c, m)) l) = cnt e l.
+Proof.
+  intros c e l. induction l as [|x l IH]; [reflexivity|].
+  cbn [map]. rewrite cntp_cons, cnt_cons, IH.
+  destruct (pe_dec (c, x) (c, e)) as [H|H]; destruct (env_dec x e) as [H'|H']; try reflexivity.
+  - inversion H. congruence.
+  - subst. congruence.
+Qed.
+
+Lemma cnt_all_other : forall e e' l, (forall x, In x l -> x = e') -> e' <> e -> cnt e l = 0.
+Proof.
+  intros e e' l H Hne. apply cnt_zero_not_in. intros Hin. apply H in Hin. congruence.
+Qed.
+
+Lemma cnt_snd_all_other : forall e e' (l : list (cid * env)),
+  (forall x, In x l -> snd x = e') -> e' <> e -> cnt e (map snd l) = 0.
+Proof.
+  intros e e' l H Hne. apply cnt_zero_not_in. intros Hin. apply in_map_iff in Hin.
+  destruct Hin as [x [Hx Hin]]. apply H in Hin. congruence.
+Qed.
+
+Lemma cnt_filter_true : forall e (p : pred) l, p e = true -> cnt e (filter (fun m => negb (p m)) l) = 0.
+Proof.
+  intros e p l Hp. apply cnt_zero_not_in. intros Hin. apply filter_In in Hin. destruct Hin as [_ Hn].
+  rewrite Hp in Hn. discriminate.
+Qed.
+
+Lemma cnt_filter_false : forall e (p : pred) l, p e = false -> cnt e (filter p l) = 0.
+Proof.
+  intros e p l Hp. apply cnt_zero_not_in. intros Hin. apply filter_In in Hin. destruct Hin as [_ Hn].
+  congruence.
+Qed.
+
+(* ------------------------------------------------------------------ effect of one action on the logs *)
+
+Inductive eff (s s' : state) : action -> Prop :=
+| EffSame a :
+    cache s' = cache s -> inflight s' = inflight s -> dlog s' = dlog s -> hlog s' = hlog s ->
+    flushed s' = flushed s -> shist s' = shist s -> eff s s' a
+| EffPut e c1 d1 h1 :
+    cache s' = cache s ++ c1 -> inflight s' = inflight s -> dlog s' = dlog s ++ d1 -> hlog s' = hlog s ++ h1 ->
+    flushed s' = flushed s -> shist s' = shist s ->
+    (forall x, In x c1 -> x = e) -> (forall x, In x d1 -> snd x = e) -> (forall x, In x h1 -> x = e) ->
+    eff s s' (APut e)
+| EffSub c p :
+    cache s' = filter (fun m => negb (p m)) (cache s) ->
+    inflight s' = inflight s ++ map (fun m => (c, m)) (filter p (cache s)) ->
+    dlog s' = dlog s -> hlog s' = hlog s -> flushed s' = flushed s -> shist s' = shist s ++ [(c, p)] ->
+    eff s s' (ASubscribe c p)
+| EffDeliver c e l1 l2 :
+    cache s' = cache s -> inflight s = l1 ++ (c, e) :: l2 -> inflight s' = l1 ++ l2 ->
+    dlog s' = dlog s ++ [(c, e)] -> hlog s' = hlog s -> flushed s' = flushed s -> shist s' = shist s ->
+    eff s s' (ADeliver c)
+| EffFlush :
+    cache s' = [] -> inflight s' = inflight s -> dlog s' = dlog s -> hlog s' = hlog s ->
+    flushed s' = flushed s ++ cache s -> shist s' = shist s -> eff s s' ACloseClear.
+
+Lemma step_eff : forall s a, eff s (fst (step s a)) a.
+Proof.
+  intros s a. destruct a; cbn [step].
+  - unfold put. destruct (closed s); [apply EffSame; reflexivity|].
+    destruct (matching s e) as [|c0 tos] eqn:Hm.
+    + destruct (cache_matches s e).
+      * apply EffPut with (c1 := [e]) (d1 := []) (h1 := []); simpl; try reflexivity;
+          try (symmetry; apply app_nil_r); try (intros ? Hf; simpl in Hf; contradiction); intros x [Hx|[]]; congruence.
+      * apply EffPut with (c1 := []) (d1 := []) (h1 := [e]); simpl; try reflexivity;
+          try (symmetry; apply app_nil_r); try (intros ? Hf; simpl in Hf; contradiction); intros x [Hx|[]]; congruence.
+    + apply EffPut with (c1 := []) (d1 := map (fun c => (c, e)) (c0 :: tos)) (h1 := []); simpl; try reflexivity;
+        try (symmetry; apply app_nil_r); try (intros ? Hf; simpl in Hf; contradiction).
+      intros x Hx. destruct Hx as [Hx|Hx]; [subst x; reflexivity|].
+      apply in_map_iff in Hx. destruct Hx as [y [Hy _]]. subst x. reflexivity.
+  - unfold subscribe. destruct (closed s); [apply EffSame; reflexivity|].
+    destruct (memn c (map fst (subs s))); [apply EffSame; reflexivity|].
+    destruct (memn c (cclosed s)); [apply EffSame; reflexivity|].
+    apply EffSub; reflexivity.
+  - unfold cache_pred. destruct (closed s); [apply EffSame; reflexivity|].
+    destruct (memn k (map fst (cpreds s))); apply EffSame; reflexivity.
+  - apply EffSame; reflexivity.
+  - unfold close_consumer. destruct (memn c (cclosed s)); [apply EffSame; reflexivity|].
+    destruct (memn c (map fst (shist s))); apply EffSame; reflexivity.
+  - unfold delete. destruct (negb (memn c (pending s))); [apply EffSame; reflexivity|].
+    destruct (closed s); [apply EffSame; reflexivity|].
+    destruct (del_sub c (subs s)); apply EffSame; reflexivity.
+  - unfold deliver. destruct (take_first c (inflight s)) as [[e r]|] eqn:Ht; [|apply EffSame; reflexivity].
+    destruct (take_first_split _ _ _ _ Ht) as [l1 [l2 [Hl Hr]]].
+    apply EffDeliver with (e := e) (l1 := l1) (l2 := l2); simpl; try reflexivity; assumption.
+  - unfold close_flag. destruct (closed s); apply EffSame; reflexivity.
+  - unfold close_clear. destruct (negb (closing s)); [apply EffSame; reflexivity|].
+    destruct (cache s) eqn:Hc.
+    + apply EffSame; reflexivity.
+    + apply EffFlush; simpl; try reflexivity. rewrite Hc. reflexivity.
+Qed.
+
+(* ------------------------------------------------------------------ an envelope that is neither cached nor in flight stays where it is *)
+
+Definition quiet (e : env) (s : state) : Prop := inC e s = 0 /\ inF e s = 0.
+
+Definition same_logs (e : env) (s s' : state) : Prop :=
+  (forall c, cntp (c, e) (dlog s') = cntp (c, e) (dlog s)) /\ inD e s' = inD e s /\
+  inH e s' = inH e s /\ inX e s' = inX e s.
+
+Lemma eff_quiet : forall e s s' a, eff s s' a -> a <> APut e -> quiet e s -> quiet e s' /\ same_logs e s s'.
+Proof.
+  intros e s s' a He Hne [Hc Hf]. unfold quiet, same_logs, inC, inF, inD, inH, inX in *.
+  destruct He as [a H1 H2 H3 H4 H5 H6 | e' c1 d1 h1 H1 H2 H3 H4 H5 H6 Hc1 Hd1 Hh1 | c p H1 H2 H3 H4 H5 H6
+                 | c e1 l1 l2 H1 H2 H2' H3 H4 H5 H6 | H1 H2 H3 H4 H5 H6].
+  - rewrite H1, H2, H3, H4, H5. repeat split; auto.
+  - assert (Hee : e' <> e) by congruence.
+    rewrite H1, H2, H3, H4, H5. rewrite !map_app, !cnt_app.
+    rewrite (cnt_all_other e e' c1 Hc1 Hee), (cnt_all_other e e' h1 Hh1 Hee), (cnt_snd_all_other e e' d1 Hd1 Hee).
+    repeat split; try lia. intros c. rewrite cntp_app.
+    pose proof (cntp_le c e d1). rewrite (cnt_snd_all_other e e' d1 Hd1 Hee) in H. lia.
+  - rewrite H1, H2, H3, H4, H5. rewrite map_app, cnt_app, map_snd_pair.
+    pose proof (cnt_filter_split e p (cache s)). repeat split; try lia; auto.
+  - rewrite H1, H2', H3, H4, H5. rewrite H2 in Hf. rewrite !map_app, !cnt_app in *. cbn [map snd] in *.
+    rewrite cnt_cons in Hf. destruct (env_dec e1 e) as [Heq|Heq]; [lia|].
+    repeat split; try lia.
+    + intros c0. rewrite cntp_app, cntp_cons. destruct (pe_dec (c, e1) (c0, e)) as [Hq|Hq]; [inversion Hq; congruence|].
+      change (cntp (c0, e) []) with 0. lia.
+    + rewrite cnt_cons. destruct (env_dec e1 e); [congruence|]. change (cnt e []) with 0. lia.
+  - rewrite H1, H2, H3, H4, H5. rewrite cnt_app. repeat split; try lia; auto.
+Qed.
+
+Lemma run_quiet : forall e tr s, ~ In (APut e) tr -> quiet e s -> quiet e (run s tr) /\ same_logs e s (run s tr).
+Proof.
+  intros e tr. induction tr as [|a tr IH]; intros s Hn Hq.
+  - split; [exact Hq|]. unfold same_logs. repeat split; reflexivity.
+  - rewrite run_cons. cbn [In] in Hn.
+    assert (Hne : a <> APut e) by (intros Heq; apply Hn; left; exact Heq).
+    destruct (eff_quiet e s _ a (step_eff s a) Hne Hq) as [Hq' Hs'].
+    assert (Hn' : ~ In (APut e) tr) by tauto.
+    destruct (IH (fst (step s a)) Hn' Hq') as [Hq'' Hs''].
+    split; [exact Hq''|]. destruct Hs' as [A1 [A2 [A3 A4]]]. destruct Hs'' as [B1 [B2 [B3 B4]]].
+    unfold same_logs. repeat split; try congruence.
+Qed.
+
+(* ------------------------------------------------------------------ following a cached envelope *)
+
+Definition rejects (e : env) (l : list (cid * pred)) : Prop := forall c p, In (c, p) l -> p e = false.
+
+(* h0 = the successful subscriptions before the put *)
+Inductive tracked (e : env) (h0 : list (cid * pred)) (s : state) : Prop :=
+| TrCached mid :
+    shist s = h0 ++ mid -> rejects e mid ->
+    inC e s = 1 -> inF e s = 0 -> inD e s = 0 -> inH e s = 0 -> inX e s = 0 -> tracked e h0 s
+| TrTaken mid c p rest :
+    shist s = h0 ++ mid ++ (c, p) :: rest -> rejects e mid -> p e = true ->
+    inC e s = 0 -> inH e s = 0 -> inX e s = 0 ->
+    inF e s + inD e s = 1 -> cntp (c, e) (inflight s) + cntp (c, e) (dlog s) = 1 -> tracked e h0 s
+| TrFlushed :
+    inC e s = 0 -> inF e s = 0 -> inD e s = 0 -> inH e s = 0 -> inX e s = 1 -> tracked e h0 s.
+
+Lemma rejects_snoc : forall e mid c (p : pred), rejects e mid -> p e = false -> rejects e (mid ++ [(c, p)]).
+Proof.
+  intros e mid c p Hr Hp c1 p1 Hin. apply in_app_or in Hin. destruct Hin as [Hin|[Hin|[]]].
+  - eapply Hr; exact Hin.
+  - inversion Hin; subst. exact Hp.
+Qed.
+
+Lemma eff_tracked : forall e h0 s s' a, eff s s' a -> a <> APut e -> tracked e h0 s -> tracked e h0 s'.
+Proof.
+  intros e h0 s s' a He Hne Ht.
+  destruct Ht as [mid Hh Hrej HC HF HD HH HX | mid c p rest Hh Hrej Hp HC HH HX HFD Hcp | HC HF HD HH HX].
+  - (* still in the cache *)
+    unfold inC, inF, inD, inH, inX in *.
+    destruct He as [a H1 H2 H3 H4 H5 H6 | e' c1 d1 h1 H1 H2 H3 H4 H5 H6 Hc1 Hd1 Hh1 | c p H1 H2 H3 H4 H5 H6
+                   | c e1 l1 l2 H1 H2 H2' H3 H4 H5 H6 | H1 H2 H3 H4 H5 H6].
+    + apply TrCached with mid; unfold inC, inF, inD, inH, inX; rewrite ?H1, ?H2, ?H3, ?H4, ?H5, ?H6; assumption.
+    + assert (Hee : e' <> e) by congruence.
+      apply TrCached with mid; unfold inC, inF, inD, inH, inX; rewrite ?H1, ?H2, ?H3, ?H4, ?H5, ?H6; try assumption;
+        rewrite ?map_app, ?cnt_app, ?(cnt_all_other e e' c1 Hc1 Hee), ?(cnt_all_other e e' h1 Hh1 Hee), ?(cnt_snd_all_other e e' d1 Hd1 Hee); lia.
+    + pose proof (cnt_filter_split e p (cache s)) as Hsp. destruct (p e) eqn:Hpe.
+      * pose proof (cnt_filter_true e p (cache s) Hpe) as Hz.
+        apply TrTaken with mid c p []; unfold inC, inF, inD, inH, inX; rewrite ?H1, ?H2, ?H3, ?H4, ?H5, ?H6; try assumption.
+        -- rewrite Hh. rewrite <- app_assoc. reflexivity.
+        -- rewrite map_app, cnt_app, map_snd_pair. lia.
+        -- rewrite cntp_app, cntp_pair_map.
+           pose proof (cntp_le c e (inflight s)). pose proof (cntp_le c e (dlog s)). lia.
+      * pose proof (cnt_filter_false e p (cache s) Hpe) as Hz.
+        apply TrCached with (mid ++ [(c, p)]); unfold inC, inF, inD, inH, inX; rewrite ?H1, ?H2, ?H3, ?H4, ?H5, ?H6; try assumption.
+        -- rewrite Hh. rewrite <- app_assoc. reflexivity.
+        -- apply rejects_snoc; assumption.
+        -- lia.
+        -- rewrite map_app, cnt_app, map_snd_pair. lia.
+    + rewrite H2 in HF. rewrite map_app, cnt_app in HF. cbn [map snd] in HF. rewrite cnt_cons in HF.
+      destruct (env_dec e1 e) as [Heq|Heq]; [lia|].
+      apply TrCached with mid; unfold inC, inF, inD, inH, inX; rewrite ?H1, ?H2', ?H3, ?H4, ?H5, ?H6; try assumption.
+      * rewrite map_app, cnt_app. lia.
+      * rewrite map_app, cnt_app. cbn [map snd]. rewrite cnt_cons. destruct (env_dec e1 e); [congruence|].
+        change (cnt e []) with 0. lia.
+    + apply TrFlushed; unfold inC, inF, inD, inH, inX; rewrite ?H1, ?H2, ?H3, ?H4, ?H5, ?H6; try assumption.
+      * reflexivity.
+      * rewrite cnt_app. lia.
+  - (* taken by the subscription of c *)
+    unfold inC, inF, inD, inH, inX in *.
+    destruct He as [a H1 H2 H3 H4 H5 H6 | e' c1 d1 h1 H1 H2 H3 H4 H5 H6 Hc1 Hd1 Hh1 | c' p' H1 H2 H3 H4 H5 H6
+                   | c' e1 l1 l2 H1 H2 H2' H3 H4 H5 H6 | H1 H2 H3 H4 H5 H6].
+    + apply TrTaken with mid c p rest; unfold inC, inF, inD, inH, inX; rewrite ?H1, ?H2, ?H3, ?H4, ?H5, ?H6; assumption.
+    + assert (Hee : e' <> e) by congruence.
+      pose proof (cntp_le c e d1) as Hle. rewrite (cnt_snd_all_other e e' d1 Hd1 Hee) in Hle.
+      apply TrTaken with mid c p rest; unfold inC, inF, inD, inH, inX; rewrite ?H1, ?H2, ?H3, ?H4, ?H5, ?H6; try assumption;
+        rewrite ?map_app, ?cnt_app, ?cntp_app, ?(cnt_all_other e e' c1 Hc1 Hee), ?(cnt_all_other e e' h1 Hh1 Hee), ?(cnt_snd_all_other e e' d1 Hd1 Hee); lia.
+    + pose proof (cnt_filter_split e p' (cache s)) as Hsp.
+      pose proof (cntp_le c e (map (fun m => (c', m)) (filter p' (cache s)))) as Hle. rewrite map_snd_pair in Hle.
+      apply TrTaken with mid c p (rest ++ [(c', p')]); unfold inC, inF, inD, inH, inX; rewrite ?H1, ?H2, ?H3, ?H4, ?H5, ?H6; try assumption.
+      * rewrite Hh. rewrite <- !app_assoc. reflexivity.
+      * lia.
+      * rewrite map_app, cnt_app, map_snd_pair. lia.
+      * rewrite cntp_app. lia.
+    + rewrite H2 in HFD, Hcp. rewrite map_app, cnt_app in HFD. cbn [map snd] in HFD. rewrite cnt_cons in HFD.
+      rewrite cntp_app, cntp_cons in Hcp.
+      apply TrTaken with mid c p rest; unfold inC, inF, inD, inH, inX; rewrite ?H1, ?H2', ?H3, ?H4, ?H5, ?H6; try assumption.
+      * rewrite !map_app, !cnt_app. cbn [map snd]. rewrite cnt_cons. change (cnt e []) with 0. lia.
+      * rewrite !cntp_app, cntp_cons. change (cntp (c, e) []) with 0. lia.
+    + apply TrTaken with mid c p rest; unfold inC, inF, inD, inH, inX; rewrite ?H1, ?H2, ?H3, ?H4, ?H5, ?H6; try assumption.
+      * reflexivity.
+      * rewrite cnt_app. lia.
+  - (* flushed by Close *)
+    destruct (eff_quiet e s s' a He Hne (conj HC HF)) as [[Q1 Q2] [_ [Q3 [Q4 Q5]]]].
+    apply TrFlushed; congruence.
+Qed.
+
+Lemma run_tracked : forall e h0 tr s, ~ In (APut e) tr -> tracked e h0 s -> tracked e h0 (run s tr).
+Proof.
+  intros e h0 tr. induction tr as [|a tr IH]; intros s Hn Ht; [exact Ht|].
+  rewrite run_cons. cbn [In] in Hn. apply IH; [tauto|].
+  apply eff_tracked with s a; [apply step_eff | intros Heq; apply Hn; left; exact Heq | exact Ht].
+Qed.
